@@ -122,6 +122,13 @@ fn build(history: &[Act]) -> Built {
         match kind {
             FrameKind::Syscall => {
                 let name = format!("k{}", kernel.len());
+                // a kernel cannot hold two procedures with the same MAST root: a body that repeats an earlier
+                // kernel procedure gets a distinct no-op in front
+                if kernel.iter().any(|k: &Proc| k.locals == o.locals && format!("{:?}", k.body) == format!("{body:?}")) {
+                    let mut b = ops(&format!("push.{} drop", 1000 + kernel.len()));
+                    b.extend(body);
+                    body = b;
+                }
                 kernel.push(Proc { name: name.clone(), locals: o.locals, body });
                 parent.body.push(Node::Syscall(name));
             }
@@ -511,6 +518,23 @@ fn alphabet(full: bool) -> Vec<Act> {
     v
 }
 
+/// frames only: every way of entering and leaving contexts, `caller`, and one store / load - searched deeper than
+/// the two alphabets above (what `caller` returns and which memory is seen depends on the whole chain of frames
+/// that were entered AND LEFT before, e.g. call -> dynexec -> leave -> syscall -> caller)
+fn alphabet_frames() -> Vec<Act> {
+    vec![
+        Act::Enter(FrameKind::Exec, 1),
+        Act::Enter(FrameKind::Call, 0),
+        Act::Enter(FrameKind::Syscall, 1),
+        Act::Enter(FrameKind::DynCall, 0),
+        Act::Enter(FrameKind::DynExec, 1),
+        Act::Leave,
+        Act::Caller,
+        Act::Store { addr: 0, imm: false },
+        Act::Load { addr: 0, imm: false },
+    ]
+}
+
 fn inits() -> Vec<Vec<u64>> {
     [16usize, 17, 20, 33].iter().map(|d| (0..*d).map(|i| 5 + i as u64).collect()).collect()
 }
@@ -625,12 +649,24 @@ pub fn run(ctx: &Ctx, replay: Option<&Value>) -> i32 {
     let mut contexts = 0u64;
     let mut runs = vec![];
     // two searches: the full alphabet to a smaller depth, a reduced alphabet one level deeper
+    // three searches: the full alphabet to a smaller depth, a reduced alphabet one level deeper, frames only deeper still
     let plans = match ctx.tier {
-        mcx::Tier::Quick => vec![(true, 2usize), (false, 3)],
-        mcx::Tier::Thorough => vec![(true, 3), (false, 4)],
+        mcx::Tier::Quick => vec![(Some(true), 2usize), (Some(false), 3), (None, 5)],
+        mcx::Tier::Thorough => vec![(Some(true), 3), (Some(false), 4), (None, 6)],
     };
-    for (full, depth) in plans {
-        let m = M { ctx, inits: inits(), alphabet: alphabet(full), max_nesting: 3, classes: Mutex::new(BTreeMap::new()), contexts: Mutex::new(0) };
+    for (which, depth) in plans {
+        let full = which == Some(true);
+        let m = M {
+            ctx,
+            inits: if which.is_none() { inits().into_iter().take(2).collect() } else { inits() },
+            alphabet: match which {
+                Some(f) => alphabet(f),
+                None => alphabet_frames(),
+            },
+            max_nesting: 3,
+            classes: Mutex::new(BTreeMap::new()),
+            contexts: Mutex::new(0),
+        };
         // wall-clock cap = safety net only (a hit is reported as cap_hit / exhaustive = false)
         let st = bfs::bfs(&m, depth, ctx.tier.pick(600.0, 3600.0), 4_000_000);
         total.states += st.states;
@@ -641,7 +677,7 @@ pub fn run(ctx: &Ctx, replay: Option<&Value>) -> i32 {
             *classes.entry(k).or_insert(0) += v;
         }
         contexts += m.contexts.into_inner().unwrap();
-        runs.push(json!({"alphabet_size": m.alphabet.len(), "full_alphabet": full, "depth_completed": st.depth_completed, "states": st.states,
+        runs.push(json!({"alphabet_size": m.alphabet.len(), "full_alphabet": full, "frames_only_alphabet": which.is_none(), "depth_completed": st.depth_completed, "states": st.states,
             "transitions": st.transitions, "duplicates": st.duplicates, "frontier_sizes": st.frontier_sizes, "cap_hit": st.cap_hit}));
     }
     let la = locaddr_family(ctx);
